@@ -28,7 +28,7 @@ type ModelRes struct {
 func driverLine(cr *CaseResult) string {
 	var hss []map[string]any
 	for i, hs := range cr.Case.Handshakes {
-		h := map[string]any{"local": hs.Local, "blocked": hs.Blocked}
+		h := map[string]any{"local": hs.Local, "blocked": hs.Blocked, "routerClosed": hs.AfterClose}
 		if hs.Transport != nil {
 			h["transport"] = hs.Transport
 		}
@@ -159,6 +159,8 @@ func whyOf(o *Obs) string {
 		return "emptyRealm"
 	case strings.HasPrefix(e, "router is closing"):
 		return "routerClosing"
+	case strings.HasPrefix(e, "router is closed"):
+		return "routerClosed"
 	case strings.HasPrefix(e, "no realm \""):
 		return "noSuchRealm"
 	case strings.HasPrefix(e, "failed to create realm"):
